@@ -697,6 +697,54 @@ Definition placement (ss : list slot) : list (Z * string * list Z * list Z) :=
   map (fun s => (s_nidx s, s_nname s, indices (s_cores s), indices (s_gpus s))) ss.
 
 (* ------------------------------------------------------------------ *)
+(* the client reads the placement a task was given: Task.slots           *)
+
+(* slots as their writers leave them: every key but cores/gpus may be missing *)
+Record pslot := mkPSlot {
+  p_typed   : bool;
+  p_version : option Z;
+  p_cores   : rspec;
+  p_gpus    : rspec;
+  p_lfs     : option Z;
+  p_mem     : option Z;
+  p_nidx    : option Z;
+  p_nname   : option string }.
+
+Definition odflt {A} (o : option A) (d : A) : A := match o with Some x => x | None => d end.
+
+(* Slot(from_dict): missing keys get the class defaults, ints and plain dicts become ROs *)
+Definition pslot_ctor (s : pslot) : pslot :=
+  mkPSlot true (Some (odflt (p_version s) 1)) (res_ctor (p_cores s)) (res_ctor (p_gpus s))
+          (Some (odflt (p_lfs s) 0)) (Some (odflt (p_mem s) 0)) (Some (odflt (p_nidx s) 0))
+          (Some (odflt (p_nname s) EmptyString)).
+
+Definition pversion_falsy (s : pslot) : bool :=
+  match p_version s with Some v => v =? 0 | None => true end.
+
+(* what reached Task._update as task['slots'] *)
+Inductive cinput :=
+| CNothing                       (* None, or no 'slots' key: the attribute keeps its value (None) *)
+| CSlots (l : list pslot)        (* a list of slot dicts *)
+| CRanksDict.                    (* the hombre scheduler's dict {'ranks': [...], 'ncblocks': ..} *)
+
+(* Task.slots: an old-format list (first slot without version) is upgraded slot by slot with
+   Slot(...); anything else is handed out as it is.  A dict is indexed with 0: KeyError. *)
+Definition client_slots (c : cinput) : perr + list pslot :=
+  match c with
+  | CNothing => inr []
+  | CSlots [] => inr []
+  | CSlots (s :: r) => if pversion_falsy s then inr (map pslot_ctor (s :: r)) else inr (s :: r)
+  | CRanksDict => inl KeyError
+  end.
+
+(* what the writer meant: node, core and GPU indices, lfs, mem -- absent keys mean the defaults *)
+Definition pplacement1 (s : pslot) :=
+  (odflt (p_nidx s) 0, odflt (p_nname s) EmptyString, indices (p_cores s), indices (p_gpus s),
+   odflt (p_lfs s) 0, odflt (p_mem s) 0).
+
+Definition pplacement (l : list pslot) := map pplacement1 l.
+
+(* ------------------------------------------------------------------ *)
 (* function envelopes                                                  *)
 
 Definition kwargs := list (string * atom).
